@@ -568,7 +568,8 @@ def check_cost_laws(rep, crate):
                                 return ('call', t[1][:-len('_mut')], tuple(unmut(a) for a in t[2]))
                             return tuple(unmut(x) for x in t)
                         return t
-                    if T.same(unmut(ltop), unmut(want), minmax=True):
+                    from .summary import term_case_lines
+                    if term_case_lines(unmut(ltop)) == term_case_lines(unmut(want)):
                         rep.ok('COST-LEAST', f'COST-LEAST:{short}', wl, 'least_wcet(n) = min(table[0], min over 1 <= i < min(len, n) of table[i] - table[i-1]): with COST-PREFIX and the '
                                'telescoping items these are exactly the first min(len, n) items (beyond the prefix the items repeat periodically: not decided here)', fn=lpath)
                     else:
